@@ -13,9 +13,9 @@ CLAIMED = {
    ref="4/C16", technique="SSA path analysis (SEND-DISCIPLINE), value provenance (FIELDS), dominance cuts (GUARD), PAIR on field writes",
    note="akita port semantics and the translation service trusted; address values not computed, only the expression shape"),
  "C18": dict(
-   text="RDMA clauses only: exactly-once forwarding and reply routing are decided structurally (SEND-DISCIPLINE on six handlers incl. the control port, a frozen wiring table output port/input port/transaction table/address mapper checked against each Send's provenance, reply matching on forwarded IDs, drain acknowledgement guarded by both tables empty). Equality of final data across GPU counts is a runtime quantity and is not decided.",
+   text="RDMA clauses only: exactly-once forwarding and reply routing are decided structurally (SEND-DISCIPLINE on six handlers incl. the control port, a frozen wiring table output port/input port/transaction table/address mapper checked against each Send's provenance, reply matching on forwarded IDs, drain acknowledgement guarded by both tables empty). For the anchored benchmarks one necessary condition of that equality is decided: a per-GPU share obtained by dividing by the GPU count comes with a treatment of the remainder (eight known findings). Equality of final data across GPU counts is otherwise a runtime quantity and is not decided.",
    ref="4/C18", technique="SSA path analysis (SEND-DISCIPLINE), value provenance against a wiring table, dominance cuts (GUARD)",
-   note="only the RDMA engine's clauses; data equality across GPU sets and the driver's distribution arithmetic are not decided"),
+   note="the RDMA engine's clauses and the benchmarks' split arithmetic; data equality across GPU sets and the driver's distribution arithmetic are not decided"),
 }
 
 CLAIMED.update({
